@@ -67,6 +67,7 @@ type Watcher struct {
 	Errors chan error
 	in     *vfs.Instance
 	closed bool
+	asked  bool // the overflow-report choice has been offered for this watcher
 }
 
 // Delivered logs every event handed to Watcher.Events in this execution (conformance, diagnostics).
@@ -125,6 +126,16 @@ func (w *Watcher) readEvents() {
 		vsync.TouchChan(w.Events)
 		if w.closed {
 			return
+		}
+		if vfs.W.OverflowReports && !w.asked {
+			w.asked = true
+			if sched.Choose("fsnotify.overflow-report", []string{"none", "ErrEventOverflow"}, []int{sched.KindSched, sched.KindFault}) == 1 {
+				vsync.TouchChan(w.Errors)
+				select {
+				case w.Errors <- ErrEventOverflow:
+				default:
+				}
+			}
 		}
 		k := w.in.Queue[0]
 		w.in.Queue = w.in.Queue[1:]
